@@ -324,6 +324,11 @@ def CollectEx2(a):
     return _mk(f"collect_ex2({a.rs})", f"G::CollectEx2(&{a.ast})", f"{a.desc}*.collect_exactly[2]", [a], flags=["rep"])
 
 
+def CollectEx2B(a, hi):
+    return _mk(f"collect_ex2b({a.rs}, {hi.rs})", f"G::CollectEx2B(&{a.ast}, {hi.ast})", f"{a.desc}{{0,{hi.desc}}}.collect_exactly[2]", [a],
+               params=hi.params, flags=["rep"], pmax=_pm(hi, hi))
+
+
 def Enum(a, lo, hi):
     return _t(_mk(f"enum_({a.rs}, {lo.rs}, {hi.rs})", f"G::Enum(&{a.ast}, {lo.ast}, {hi.ast})",
                f"enumerate({a.desc}{{{lo.desc},{hi.desc}}})", [a], params=lo.params + hi.params, flags=["rep"],
